@@ -72,13 +72,15 @@ PROPS = {
     "C13": {"runs": lambda tier: [run("locale", ops=["both", "loc_conv", "loc_prefix"], features=["likely"])], "rule": LOCALE_RULE},
     "C20": {
         "runs": lambda tier: [dict(run("c20", features=f), digest=True) for f in
-                              ([[], ["likely"], ["likely", "macros", "serde"]] if tier != "thorough" else
+                              ([[], ["likely"], ["macros", "serde"], ["likely", "macros", "serde"]] if tier != "thorough" else
                                [[], ["likely"], ["serde"], ["macros"], ["likely", "serde"], ["likely", "macros"], ["macros", "serde"], ["likely", "macros", "serde"]])],
         "digest_compare": True,
         "rule": "suite `c20`: the same seeded corpus (regression corpus, token sequences, random well-formed locales and mutations through Locale / "
                 "LanguageIdentifier / canonicalize of the impl AND facade crates, matches / cmp / hash pairs, operation histories without maximize/minimize) built "
-                "and run under each feature configuration (quick: none, likelysubtags, all three; thorough: all eight); every transcript must equal the model's and "
-                "the SHA-256 of the transcripts outside the character_direction column must be identical across configurations",
+                "and run under each feature configuration (quick: none, likelysubtags, macros+serde, all three; thorough: all eight); every transcript must equal the model's, "
+                "the SHA-256 of the transcripts outside the character_direction column must be identical across configurations, and the SHA-256 of the "
+                "character_direction column must be identical among the configurations with likelysubtags and among those without (cargo feature unification "
+                "through a dependency declaration shows there)",
         "trusted_extra": ["cargo feature unification is exercised, not modelled"],
     },
     "C16": {
